@@ -242,6 +242,36 @@ func c18Percent(c *ev.Collector) {
 	c.AddExtra("percent_decoder_inputs", m)
 }
 
+// c18Binary: binary header values round-trip every byte string of length
+// <= 3 (padded and unpadded spelling), and the decoder is total.
+func c18Binary(c *ev.Collector) {
+	binHelpers(c, "TestC18", 3)
+	shard, shards := ev.Shard()
+	sym := []byte{'A', 'Q', '=', '-', '_', '+', '/', ' ', 0xFF}
+	var m int64
+	var rec func(prefix []byte, depth int)
+	rec = func(prefix []byte, depth int) {
+		m++
+		c18Safe(c, "binary-decode", func() { _, _ = connect.DecodeBinaryHeader(string(prefix)) })
+		if depth == 6 {
+			return
+		}
+		for _, s := range sym {
+			rec(append(prefix, s), depth+1)
+		}
+	}
+	for i, s := range sym {
+		if i == shard%shards && shard < len(sym) {
+			rec([]byte{s}, 1)
+		}
+	}
+	c.AddEvaluations(m)
+	c.AddDistinct(m)
+	c.AddStates(m)
+	c.AddTransitions(m)
+	c.AddExtra("binary_decoder_inputs", m)
+}
+
 // c18HandlerStatus: every code a real unary Connect handler returns reaches
 // the wire with a 4xx/5xx status.
 func c18HandlerStatus(t *testing.T, c *ev.Collector) {
@@ -277,11 +307,12 @@ func c18HandlerStatus(t *testing.T, c *ev.Collector) {
 func TestC18(t *testing.T) {
 	c := ev.New("C18")
 	defer func() { _ = c.Finish() }()
-	c.SetRule("complete domain enumeration: Code text round trip and HTTP status class for every enumerated 32-bit value (see bounds; thorough = all 2^32); UnmarshalText must reject every string of length <= 3 over a 40-symbol alphabet and every single-character edit of each defined name that is neither a name nor code_<number>; gRPC percent-encoding round trip and printable-ASCII output for every byte string of length <= 3 (16.8 M) plus long structured ones; decoder totality on every string of length <= 6 over {%,0,A,f,G,space,0xFF,a}; every code 0..17, 99, 2^32-1 returned by a real unary Connect handler must reach the wire as 4xx/5xx; each enumerated value is one distinct case")
+	c.SetRule("complete domain enumeration: Code text round trip and HTTP status class for every enumerated 32-bit value (see bounds; thorough = all 2^32); UnmarshalText must reject every string of length <= 3 over a 40-symbol alphabet and every single-character edit of each defined name that is neither a name nor code_<number>; gRPC percent-encoding round trip and printable-ASCII output for every byte string of length <= 3 (16.8 M) plus long structured ones; decoder totality on every string of length <= 6 over {%,0,A,f,G,space,0xFF,a}; Encode/DecodeBinaryHeader round trip for every byte string of length <= 3 in the padded and the unpadded spelling, header-safe output, and DecodeBinaryHeader totality on every string of length <= 6 over {A,Q,=,-,_,+,/,space,0xFF}; every code 0..17, 99, 2^32-1 returned by a real unary Connect handler must reach the wire as 4xx/5xx; each enumerated value is one distinct case")
 	c.Assume("unexported percent codec and code->status table reached through overlay-only exported wrappers of identifiers the repository's own tests pin")
 	if ev.ReplayFile() != "" {
 		c18Reject(c)
 		c18Percent(c)
+		c18Binary(c)
 		c18Codes(c, false)
 		return
 	}
@@ -292,6 +323,7 @@ func TestC18(t *testing.T) {
 	}
 	c18Reject(c)
 	c18Percent(c)
+	c18Binary(c)
 	c18Codes(c, thorough)
 	c.Sample(map[string]any{"code": 4294967295, "text": "code_4294967295"})
 	c.Sample(map[string]any{"percent_input_hex": "25e298", "encoded": connect.VerifPercentEncode("%\xe2\x98")})
